@@ -124,7 +124,7 @@ fn cell(ctx: &mut Ctx, op: &str, a: &UVal, b: Option<&UVal>, ok: bool, detail: S
     if !ok {
         ctx.violation(
             &format!("api:{}:{}{}", op, a.v.kind().letter(), b.map_or("", |b| b.v.kind().letter())),
-            &format!("a = {}, b = {}: {}", a.label, b.map_or("-", |b| b.label), detail),
+            &format!("a = {} {}, b = {} {}: {}", a.label, if a.label == "random" { format!("{:?}", a.v) } else { String::new() }, b.map_or("-", |b| b.label), b.map_or(String::new(), |b| if b.label == "random" { format!("{:?}", b.v) } else { String::new() }), detail),
             Json::obj()
                 .with("operator", Json::s(op))
                 .with("a", Json::s(a.label))
@@ -353,6 +353,16 @@ pub fn run(ctx: &mut Ctx) {
     });
     ctx.cases("api_unary", n, |ctx, _, idx| {
         api_unary(ctx, &u[idx as usize]);
+    });
+    // (a') the same cells on random values beyond the universe
+    let m = ctx.size(6_000, 2_000_000);
+    ctx.cases("random_api_pairs", m, |ctx, rng, _| {
+        let a = if rng.chance(1, 4) { rng.pick(&u).clone() } else { UVal { label: "random", v: crate::vals::random_value(rng, 0) } };
+        let b = if rng.chance(1, 4) { rng.pick(&u).clone() } else { UVal { label: "random", v: crate::vals::random_value(rng, 0) } };
+        ctx.count("random_pairs_api");
+        ctx.nontrivial(hash_str(&format!("{:?}{:?}", a.v, b.v)));
+        api_pair(ctx, &a, &b);
+        api_unary(ctx, &a);
     });
     // (b) program layer
     let total = ctx.size(40_000, 1_500_000);
